@@ -2553,6 +2553,7 @@ def run_for(run, prop):
            "monitor": prop if prop in MONITORED else "none (stub)"}
     st = Counter()
     seen, nprob, deviations, excluded = set(), 0, 0, 0
+    unrepro = []
     nops = Counter()
     for scn, res in zip(scns, results):
         if res.get("start_error"):
@@ -2571,6 +2572,16 @@ def run_for(run, prop):
             nprob += 1
             if v["kind"] in seen:
                 continue
+            # a problem is reported when it shows again on two fresh runs of the same scenario (the stored result can be a cached
+            # one, and on a loaded machine a scripted step's effects can arrive after the step that looks at them); a defect of the
+            # code is deterministic on these scripted scenarios
+            try:
+                again = [replay_scenario(scn, prop, wire) for _ in range(2)]
+            except Exception as e:
+                again = [[{"kind": v["kind"], "error": str(e)[:200]}]] * 2
+            if not all(any(x.get("kind") == v["kind"] for x in (a or [])) for a in again):
+                unrepro.append(v["kind"])
+                continue
             seen.add(v["kind"])
             t = scn["_truth"]
             run.violation("counterexample", "%s monitor on a cross-feature scenario: %s: %s" % (prop, v["kind"], json.dumps({k: x for k, x in v.items() if k != "kind"}, default=str)[:600]),
@@ -2580,7 +2591,7 @@ def run_for(run, prop):
     if cov["harness_failures"] > max(1, len(scns) // 10):
         run.broken.append("cross-feature mix: %d of %d scenarios failed in the harness" % (cov["harness_failures"], len(scns)))
     cov.update({"config_values": histogram(scns)["config"], "ops_by_kind": dict(sorted(nops.items())), "monitor_evaluations": dict(sorted(st.items())), "problems": nprob, "problem_kinds": sorted(seen),
-                "script_deviations_skipped": deviations, "missing_kinds": sorted(k for k in KINDS if nops[k] == 0)})
+                "script_deviations_skipped": deviations, "missing_kinds": sorted(k for k in KINDS if nops[k] == 0), "unreproduced_problems": unrepro[:20]})
     if prop == "C16":
         cov["exclusions"] = ["held statements of clients whose user was removed and re-added by reloads since they connected (reported defect: the stale pool object "
                              "of such a session does not see the pause): %d excluded" % st.get("C16:excluded_client_of_a_readded_user", 0)] if C16_EXCLUDE_READDED_USER else []
